@@ -206,3 +206,15 @@ chk("C11", "model_checking",
     "refused is only noted (delivery is C03's matter).",
     "TLA+ grammar/classifier spec + TLC enumeration of the mutation space; process-isolated execution against the real client; trace-judged random lines",
     "DESIGN.md 3 (C11)", "tlc+harness/cmd/respfuzz")
+
+chk("C08", "model_checking",
+    "MemViews.tla (one user, mailboxes A/B, per-session announced view and pending-update queue, 14 IMAP commands in UID and non-UID form with n, n:m, n:*, *, exact "
+    "flush points, IDLE) is model-checked for the five C08 clauses over the predicted response streams on an all-command instance and on 6 (quick) / 8 (thorough) "
+    "command-family instances (2 sessions, 3 in one family, <=3 messages). Every transition of each family graph (62k quick / 612k thorough behaviours) is replayed "
+    "against a real imapserver+imapmemserver, one raw connection per session read with the harness's own tokenizer, compared after every step and audited with UID "
+    "FETCH 1:* after every NOOP. Seeded random histories (1..4 sessions, 200 commands, stale views forced) are judged record by record by MemViewsTrace with the five "
+    "clauses as invariants of the trace cfg.",
+    "Trusts TLC, the vh tokenizer and the small-scope hypothesis beyond 2-3 sessions / 3 messages (traces go to 4 sessions). Commands are issued one at a time. IDLE "
+    "delivery timing is latitude (a late wake-up is tolerated until DONE). Which messages '*' selects and the completion of an empty COPY/MOVE are latitude, not verdicts.",
+    "TLA+ spec + TLC exhaustive check (action properties, VIEW); transition-coverage replay into the real server; trace validation with a non-stopping judge",
+    "DESIGN.md 3 (C08)", "tlc+harness/cmd/memviews")
